@@ -320,5 +320,48 @@ def replay_winding():
                               "of": int(len(P))}
             if bool(one[0]) != bool(want[0]):
                 return True, {"solid": name, "point": P[0].tolist(), "single_point_is_inside": bool(one[0]), "member": bool(want[0])}
+        # convex lattice solids with faces that are not axis-aligned, as general Polyhedron: the query grid contains points straight above and
+        # below vertices and on the vertical planes through edges (ties of the vertex and of the edge classification at the same time)
+        from fractions import Fraction
+        from bounded import oracle
+        solids = {"square_pyramid": [(1, 0, 0), (0, 1, 0), (-1, 0, 0), (0, -1, 0), (0, 0, 2)],
+                  "octahedron": [(2, 0, 0), (-2, 0, 0), (0, 2, 0), (0, -2, 0), (0, 0, 1), (0, 0, -3)],
+                  "skew_wedge": [(0, 0, 0), (2, 0, 0), (0, 2, 0), (2, 2, 0), (0, 0, 1), (2, 0, 3)]}
+        for name, pts in solids.items():
+            fac = oracle.hull_facets(pts)
+            planes = []
+            for f in fac:
+                a, b, c = (tuple(Fraction(x) for x in pts[i]) for i in f[:3])
+                nrm = oracle.cross(oracle.sub(b, a), oracle.sub(c, a))
+                planes.append((nrm, oracle.dot(nrm, a)))
+            lo = [min(q[i] for q in pts) - 1 for i in range(3)]
+            hi = [max(q[i] for q in pts) + 1 for i in range(3)]
+            grid, want = [], []
+            for x2 in range(2 * lo[0], 2 * hi[0] + 1):
+                for y2 in range(2 * lo[1], 2 * hi[1] + 1):
+                    for z2 in range(2 * lo[2], 2 * hi[2] + 1):
+                        q = (Fraction(x2, 2), Fraction(y2, 2), Fraction(z2, 2))
+                        ev = [oracle.dot(nrm, q) - d_ for nrm, d_ in planes]
+                        if any(e == 0 for e in ev):
+                            continue                      # on a face plane: out of scope
+                        inside = all(e < 0 for e in ev) or all(e > 0 for e in ev)
+                        sgn = [e < 0 for e in ev]
+                        grid.append([float(c_) for c_ in q])
+                        want.append(all(sgn) if all(oracle.dot(nrm, tuple(Fraction(sum(p[i] for p in pts), len(pts)) for i in range(3))) - d_ < 0 for nrm, d_ in planes)
+                                    else all(not s_ for s_ in sgn))
+            for shift in ((0, 0, 0), (3, -2, 5)):
+                V = np.array(pts, float) + np.array(shift, float)
+                P = np.array(grid) + np.array(shift, float)
+                try:
+                    poly = cox.shapes.Polyhedron(V, [list(f) for f in fac], faces_are_convex=True)
+                    poly.sort_faces()
+                    got = np.asarray(poly.is_inside(P))
+                except Exception as e:  # noqa: BLE001
+                    return True, {"solid": name, "raised": f"{type(e).__name__}: {e}"[:200]}
+                bad = np.nonzero(got != np.array(want))[0]
+                if len(bad):
+                    i = int(bad[0])
+                    return True, {"solid": name, "vertices": V.tolist(), "faces": [list(map(int, f)) for f in poly.faces], "point": P[i].tolist(),
+                                  "is_inside": bool(got[i]), "member": bool(want[i]), "wrong": int(len(bad)), "of": int(len(P))}
         return False, {}
     return replay
